@@ -89,6 +89,7 @@ func stripConv(v ssa.Value) ssa.Value {
 
 func runC11(p *an.Prog, r *an.Run, tier string) {
 	checkSurfaceClosed(p, r)
+	checkExpiryWindow(p, r)
 	exp, ok1 := p.PkgConstInt("pool/store", "ExpireInterval")
 	ka, ok2 := p.PkgConstInt("pool/store", "KeepaliveInterval")
 	r.Check(ok1 && ok2 && exp == 2*ka && ka > 0, "evict-predicate", "store.ExpireInterval", token.NoPos, "ExpireInterval = 2*KeepaliveInterval", "ExpireInterval (%d) is not two keep-alive intervals (%d)", exp, ka)
@@ -744,4 +745,13 @@ func keyOperand(p *an.Prog, v ssa.Value, depth int) ssa.Value {
 		}
 	}
 	return v
+}
+
+// checkExpiryWindow: the activity / expiry window is two keep-alive periods (the property texts fix it: "the
+// two-keep-alive expiry window", "checked in within the activity window"): store.ExpireInterval evaluates to exactly
+// 2 * store.KeepaliveInterval. Every comparison the drivers make is against this constant, so it is part of the rule.
+func checkExpiryWindow(p *an.Prog, r *an.Run) {
+	exp, ok1 := p.PkgConstInt("pool/store", "ExpireInterval")
+	ka, ok2 := p.PkgConstInt("pool/store", "KeepaliveInterval")
+	r.Check(ok1 && ok2 && ka > 0 && exp == 2*ka, "window", "store.ExpireInterval", token.NoPos, "ExpireInterval = 2 * KeepaliveInterval", "store.ExpireInterval evaluates to %d ns and KeepaliveInterval to %d ns: the window is not two keep-alive periods, so a host silent for longer than that still counts as active (and a peer as live)", exp, ka)
 }
